@@ -32,11 +32,14 @@ type Scenario struct {
 	ClientLimit uint64 `json:"client_limit,omitempty"`
 	// Prometheus: the node runs with instrumentation.prometheus = true (labelled collectors).
 	Prometheus bool `json:"prometheus,omitempty"`
+	// DBPath: the configured database path below the home directory (rollkit.db_path; "" = the default "data").
+	DBPath string `json:"db_path,omitempty"`
 }
 
 // GenVia draws whether the scenario runs through the real DA client, and the client's limit.
 func (sc *Scenario) GenVia(t *rapid.T) {
 	sc.Prometheus = rapid.IntRange(0, 4).Draw(t, "prometheus") == 0
+	sc.DBPath = rapid.SampledFrom([]string{"", "", "", "db", "chain/db", "-"}).Draw(t, "dbpath")
 	if rapid.IntRange(0, 3).Draw(t, "viaclient") != 0 {
 		return
 	}
